@@ -159,6 +159,11 @@ def check_two(case, rec):
         for c2 in O.compositions(N2, K):
             pr2 = multinomial_prob(c2, q)
             s2 = [label(i, style) for i, c in enumerate(c2) for _ in range(c)]
+            if case.get("order") == "reversed":
+                s2 = s2[::-1]                   # the shared labels first appear in a different order in the two samples
+            elif case.get("order") == "interleaved":
+                s1 = s1[::2] + s1[1::2]
+                s2 = s2[1::2] + s2[::2]
             if style == "table_rows":
                 import pandas as pd
                 a1 = pd.DataFrame(s1, columns=["TRBV", "CDR3B"])
@@ -190,7 +195,8 @@ def two_case(draw, tier="quick"):
     return {"N1": draw(st.integers(1, top)), "N2": draw(st.integers(1, top)),
             "p": draw(st.lists(st.integers(1, 12), min_size=K, max_size=K)),
             "q": draw(st.lists(st.integers(1, 12), min_size=K, max_size=K)),
-            "labels": draw(st.sampled_from(["int", "prefix", "prefix", "suffix_digits", "equal_width", "table_rows"]))}
+            "labels": draw(st.sampled_from(["int", "prefix", "prefix", "suffix_digits", "equal_width", "table_rows"])),
+            "order": draw(st.sampled_from(["sorted", "reversed", "interleaved"]))}
 
 
 def enum_grid(tier):
